@@ -260,6 +260,11 @@ func (r *cmdRun) runTerminal(ts *termState) {
 	next := func() uint16 { serial++; return serial }
 	if sp.CloseAt == "pipelined-then-reset" || sp.CloseAt == "pipelined-then-close" {
 		// several requests in flight, then the terminal disappears while their replies are pending
+		if sp.LocNow {
+			// the first reply's write callback is slow (SlowReplyMs): the requests behind it fill the reader->writer queue
+			p.Send(ref.Encode(ref.TermHeader(0x0200, sp.V2019, sp.Phone, next()), ref.Loc28(0, 0)))
+			ts.noise()
+		}
 		for i := 0; i <= sp.PreHB; i++ {
 			p.Send(hbFrame(sp.V2019, sp.Phone, next()))
 		}
